@@ -165,3 +165,18 @@ func TestReplaceEndBeforeStart(t *testing.T) {
 		PanicType: slip.ErrorSymbol,
 	}).Test(t)
 }
+
+func TestReplaceSameSequenceOverlap(t *testing.T) {
+	(&sliptest.Function{
+		Source: `(let ((seq (list 1 2 3 4 5))) (replace seq seq :start1 1))`,
+		Expect: "(1 1 2 3 4)",
+	}).Test(t)
+	(&sliptest.Function{
+		Source: `(let ((seq (vector 1 2 3 4 5))) (coerce (replace seq seq :start1 2 :start2 1) 'list))`,
+		Expect: "(1 2 2 3 4)",
+	}).Test(t)
+	(&sliptest.Function{
+		Source: `(let ((seq (list 1 2 3 4 5))) (replace seq seq :start2 1))`,
+		Expect: "(2 3 4 5 5)",
+	}).Test(t)
+}
